@@ -438,7 +438,9 @@ impl VM {
                         continue;
                     }
                     // base pointers are 16 bits wide: a deeper stack can not be addressed
-                    if self.stack.len() > u16::MAX as usize {
+                    // (a function without parameters or variables adds nothing to the stack: its calls are
+                    // counted by their frames)
+                    if self.stack.len() > u16::MAX as usize || self.frames.len() > u16::MAX as usize {
                         return Err(Error::TypeError(
                             "de stapel is vol (te diepe recursie)".to_string(),
                         ));
